@@ -170,8 +170,7 @@ func (ex *Exec) onEdge(st *State, fr *Frame, from, to *ssa.BasicBlock) {
 			}
 		}
 		if lp == nil {
-			ex.specErrorOnce(fmt.Sprintf("%s: covers: %s has no loop#%d", c.Line, ex.fnName(fr.Fn), c.Loop))
-			continue
+			continue // reported as a missing target (VerifyFunction)
 		}
 		label := c.Label
 		if label == "" {
@@ -265,6 +264,15 @@ func errGoal(fr *Frame, res Value) *Term {
 func (ex *Exec) checkCoverReached(st *State, fr *Frame, res Value) {
 	for _, c := range ex.coverClauses(fr) {
 		if fr.CoverReached[c] {
+			continue
+		}
+		found := false
+		for _, l := range ex.loopInfo(fr.Fn).Loops {
+			if baselineLoopOrdinal(fr.Fn, l.Ordinal) == c.Loop {
+				found = true
+			}
+		}
+		if !found {
 			continue
 		}
 		var errs []string
